@@ -332,17 +332,27 @@ def _dynamic(ctx, rng):
             raise C.HarnessError("geometry driver: " + rp)
         judge(ctx, case, real, [int(x) for x in rp.split()[1:]], idx)
     # in/out partition on the same shape
-    for idx in range(ctx.scale(60, 800)):
+    for idx in range(ctx.scale(140, 1200)):
         case = gen_case(ctx, rng)
         if case["loc"] is None:
             continue
         ctx.evaluations += 1
+        nan_rows = set()
+        if case["data"]["kind"] == "df" and case["shape"] != "polygon" and rng.random() < 0.6:
+            # surveys have holes: a sensor whose position was not recorded (NaN coordinate) still is ONE sensor – 'in' and 'out' must
+            # put it on exactly one side (which one is not specified)
+            pts = [list(p) for p in case["data"]["pts"]]
+            for srow in rng.sample(range(len(pts)), min(len(pts), rng.randint(1, 2))):
+                pts[srow][rng.randrange(2)] = float("nan")
+                nan_rows.add(srow)
+            case = {**case, "data": {"kind": "df", "pts": [tuple(p) for p in pts]}}
+            ctx.count("partition_with_unrecorded_positions")
         try:
             a = run_real({**case, "loc": "in"})
             b = run_real({**case, "loc": "out"})
         except Exception:
             continue
-        amb = {s for s in case["ranking"] if (exact_side({**case, "loc": "in"}, s)[1] or 1) < Fraction(1, 10 ** 9)}
+        amb = {s for s in case["ranking"] if s not in nan_rows and (exact_side({**case, "loc": "in"}, s)[1] or 1) < Fraction(1, 10 ** 9)}
         if amb:
             continue
         if sorted(a + b) != sorted(case["ranking"]) or set(a) & set(b):
